@@ -31,6 +31,12 @@ var plans = map[string]PropPlan{
 		QuickSecs: 100, ThoroughSecs: 1500,
 		Assumptions: schedAssume,
 	},
+	"C06": {
+		Quick:     []Plan{{Scenario: "conn.request", PB: 2, DB: 0}},
+		Thorough:  []Plan{{Scenario: "conn.request", PB: 3, DB: 0}},
+		QuickSecs: 90, ThoroughSecs: 1200,
+		Assumptions: schedAssume,
+	},
 	"C09": {
 		Quick:     []Plan{{Scenario: "conn.lifecycle", PB: 2, DB: 0}},
 		Thorough:  []Plan{{Scenario: "conn.lifecycle", PB: 3, DB: 0}},
